@@ -814,26 +814,41 @@ theorem quiet_accept (t : Table) (uid i now : Nat) : Quiet t (t.accept uid i now
 theorem owned_ne_rp {r : RoleSt} (h : (!RoleSt.isOwned r) = false) : r ≠ .rp := by
   cases r <;> simp [RoleSt.isOwned] at h ⊢
 
-theorem inv_send {n : Node} (h : Inv n) (uid idx : Nat) (rel : Bool) : Inv (send n uid idx rel).1 := by
+theorem quiet_send (n : Node) (uid idx : Nat) (rel : Bool) : Quiet n.t (send n uid idx rel).1.t := by
+  intro rx ht hp
   unfold send
   cases hs : n.t.sess uid with
-  | none => rw [get_absent hs]; exact h
+  | none => rw [get_absent hs]; exact ⟨ht, hp⟩
   | some s =>
     obtain ⟨hm, hu⟩ := sess_some_mem n.t uid s hs
     subst hu
-    obtain ⟨ht1, hp1, hm1⟩ := get_inv h.tinv h.pend hm n.now
-    rw [get_mem h.tinv.uidN hm]
+    obtain ⟨ht1, hp1, hm1⟩ := get_inv ht hp hm n.now
+    rw [get_mem ht.uidN hm]
     simp only
     cases he : (touch s n.now).slot idx with
-    | none => exact h
+    | none => exact ⟨ht, hp⟩
     | some e =>
       simp only
       split
-      · exact h
+      · exact ⟨ht, hp⟩
       · rename_i hown
         obtain ⟨m, h1, h2, h3⟩ := preSend_shape (touch s n.now) idx e he rel none none
-        have hq := quiet_mrpUpdate hm1 h1 h2 he (owned_ne_rp (by simpa using hown)) h3 n.rx ht1 hp1
-        exact ⟨hq.1, hq.2, h.time⟩
+        exact quiet_mrpUpdate hm1 h1 h2 he (owned_ne_rp (by simpa using hown)) h3 rx ht1 hp1
+
+theorem send_rx (n : Node) (uid idx : Nat) (rel : Bool) : (send n uid idx rel).1.rx = n.rx ∧
+    (send n uid idx rel).1.now = n.now := by
+  unfold send
+  simp only
+  split
+  · exact ⟨rfl, rfl⟩
+  · split
+    · exact ⟨rfl, rfl⟩
+    · split <;> exact ⟨rfl, rfl⟩
+
+theorem inv_send {n : Node} (h : Inv n) (uid idx : Nat) (rel : Bool) : Inv (send n uid idx rel).1 := by
+  have hq := quiet_send n uid idx rel n.rx h.tinv h.pend
+  have hr := send_rx n uid idx rel
+  exact ⟨hq.1, by rw [hr.1]; exact hq.2, by rw [hr.1, hr.2]; exact h.time⟩
 
 theorem inv_dropEx {n : Node} (h : Inv n) (uid idx : Nat) : Inv (dropEx n uid idx).1 := by
   unfold dropEx
@@ -1172,15 +1187,16 @@ theorem tinv_add_err {t : Table} (ht : TInv t) {ctr : Nat} {r : Bool} {now port 
 def secSess (uid ctr now port sid : Nat) (mode : Mode) : Sess :=
   { freshSess uid ctr now port false with localSid := sid, mode := mode }
 
-theorem inv_establish {n : Node} (h : Inv n) (hw : n.t.nextUid < 0x0fffffff) (port : Nat) (mode : Mode) (ctr : Nat) :
-    Inv (establish n port mode ctr).1 := by
+theorem quiet_establish (n : Node) (hw : n.t.nextUid < 0x0fffffff) (port : Nat) (mode : Mode) (ctr : Nat) :
+    Quiet n.t (establish n port mode ctr).1.t := by
+  intro rx ht hp
   unfold establish
   split
-  · exact h
+  · exact ⟨ht, hp⟩
   · rename_i henc
     simp only
-    have hta := tinv_nextSessId h.tinv
-    have hfresh := nextSessId_fresh h.tinv
+    have hta := tinv_nextSessId ht
+    have hfresh := nextSessId_fresh ht
     have hwa : n.t.nextSessId.1.nextUid < 0x0fffffff := hw
     obtain ⟨hnb, hbb⟩ := add_uid_inv n.t.nextSessId.1 ctr false n.now port hta.uidN hta.uidB hwa
     split
@@ -1211,8 +1227,9 @@ theorem inv_establish {n : Node} (h : Inv n) (hw : n.t.nextUid < 0x0fffffff) (po
             show z.uid ≠ uid
             omega
           · exact Or.inl hz
-      show Inv { n with t := ((n.t.nextSessId.1.add ctr false n.now port).1.setSess (secSess uid ctr n.now port n.t.nextSessId.2 mode)) }
-      refine ⟨?_, ?_, h.time⟩
+      show TInv ((n.t.nextSessId.1.add ctr false n.now port).1.setSess (secSess uid ctr n.now port n.t.nextSessId.2 mode)) ∧
+        Pend ((n.t.nextSessId.1.add ctr false n.now port).1.setSess (secSess uid ctr n.now port n.t.nextSessId.2 mode)) rx
+      refine ⟨?_, ?_⟩
       · refine tinv_insert hta _ hmem2 (setSess_uidNodup _ _ hnb) ?_ ?_ ?_ ?_ ?_ ?_ rfl
         · intro z hz
           rw [setSess_nextUid]
@@ -1230,10 +1247,26 @@ theorem inv_establish {n : Node} (h : Inv n) (hw : n.t.nextUid < 0x0fffffff) (po
           show mode.enc = (n.t.nextSessId.2 != 0)
           rw [this]
           simpa using henc
-      · exact pend_insert h.pend _ hmem2 rfl
+      · exact pend_insert hp _ hmem2 rfl
     · rename_i er herr
       exact ⟨tinv_add_err hta hwa herr, by
-        intro z hz; rw [add_err_sessions _ _ _ _ _ _ herr] at hz; exact h.pend z hz, h.time⟩
+        intro z hz; rw [add_err_sessions _ _ _ _ _ _ herr] at hz; exact hp z hz⟩
+
+theorem establish_rx (n : Node) (port : Nat) (mode : Mode) (ctr : Nat) :
+    (establish n port mode ctr).1.rx = n.rx ∧ (establish n port mode ctr).1.now = n.now := by
+  unfold establish
+  split
+  · exact ⟨rfl, rfl⟩
+  · simp only
+    split
+    · split <;> exact ⟨rfl, rfl⟩
+    · exact ⟨rfl, rfl⟩
+
+theorem inv_establish {n : Node} (h : Inv n) (hw : n.t.nextUid < 0x0fffffff) (port : Nat) (mode : Mode) (ctr : Nat) :
+    Inv (establish n port mode ctr).1 := by
+  have hq := quiet_establish n hw port mode ctr n.rx h.tinv h.pend
+  have hr := establish_rx n port mode ctr
+  exact ⟨hq.1, by rw [hr.1]; exact hq.2, by rw [hr.1, hr.2]; exact h.time⟩
 
 /-! ### a datagram arrives -/
 
@@ -1425,5 +1458,356 @@ theorem inv_arrive {n : Node} (h : Inv n) (hw : n.t.nextUid < 0x0fffffff) (m : M
           have hq := quiet_evictSome (n.t.add rnd false n.now m.port).1 n.now n.rx htb hpb
           exact ⟨hq.1, by rw [← hrx]; exact hq.2, by rw [← hrx]; exact h.time⟩
       · exact ⟨h.tinv, hp0, htime⟩
+
+/-! ## all histories -/
+
+theorem inv_step {n : Node} (h : Inv n) (hw : n.t.nextUid < 0x0fffffff) (op : Op) : Inv (step n op).1 := by
+  cases op with
+  | arrive m rnd => exact inv_arrive h hw m rnd
+  | accept => exact inv_accept h
+  | recv uid idx => exact inv_recv h uid idx
+  | send uid idx rel => exact inv_send h uid idx rel
+  | dropEx uid idx => exact inv_dropEx h uid idx
+  | initiate uid => exact inv_initiate h uid
+  | establish port mode ctr => exact inv_establish h hw port mode ctr
+  | removeSess uid => exact inv_removeSess h uid
+  | tick d => exact inv_tick h d
+  | sweepAccept => exact inv_sweepAccept h
+  | sweepOrphan => exact inv_sweepOrphan h
+  | closer => exact inv_closer h
+
+/-- the states a node can be in: started with an empty table and an empty RX slot, then any history of
+steps — as long as the 28-bit internal session id counter has not wrapped (fewer than 2^28 sessions
+were ever created; `Sessions::add` does not check for collisions after a wrap) -/
+inductive Reach : Node → Prop
+  | init (now : Nat) : Reach { now := now }
+  | step {n : Node} (op : Op) : Reach n → n.t.nextUid < 0x0fffffff → Reach (step n op).1
+
+theorem inv_init (now : Nat) : Inv { now := now } := by
+  refine ⟨⟨?_, ?_, ?_, ?_, ?_, ?_, ?_, ?_, ?_⟩, ?_, ?_⟩
+  · exact List.nodup_nil
+  · intro s hs; cases hs
+  · intro a ha; cases ha
+  · intro s hs; cases hs
+  · exact Nat.zero_le _
+  · intro s hs; cases hs
+  · exact ⟨Nat.le_refl _, show 1 ≤ 65535 by decide⟩
+  · exact ⟨Nat.le_refl _, show 1 ≤ 65535 by decide⟩
+  · intro s hs; cases hs
+  · intro s hs; cases hs
+  · intro r hr; cases hr
+
+theorem inv_reach {n : Node} (h : Reach n) : Inv n := by
+  induction h with
+  | init now => exact inv_init now
+  | step op _ hw ih => exact inv_step ih hw op
+
+/-- `ops` can be run from `n` without the id counter wrapping -/
+def Admissible : Node → List Op → Prop
+  | _, [] => True
+  | n, op :: rest => n.t.nextUid < 0x0fffffff ∧ Admissible (step n op).1 rest
+
+theorem reach_run {n : Node} (h : Reach n) : ∀ (ops : List Op), Admissible n ops → Reach (run n ops).1 := by
+  intro ops
+  induction ops generalizing n with
+  | nil => intro _; exact h
+  | cons op rest ih =>
+    intro ha
+    exact ih (Reach.step op h ha.1) ha.2
+
+/-! ## how the slot, the clock and the accept-pending exchanges move in one step -/
+
+/-- the RX slot is only ever filled when it was empty, and only ever emptied — never overwritten -/
+macro "rx_same" : tactic =>
+  `(tactic| first | rfl | assumption | exact Or.inl rfl | (apply Or.inl; assumption))
+
+theorem rx_step (n : Node) (op : Op) :
+    (step n op).1.rx = n.rx ∨ (step n op).1.rx = none ∨ n.rx = none := by
+  cases hrx : n.rx with
+  | none => exact Or.inr (Or.inr rfl)
+  | some r =>
+    cases op with
+    | arrive m rnd => left; simp [step, arrive, hrx]
+    | accept =>
+      left
+      simp only [step, accept, hrx]
+      split
+      · rx_same
+      · split <;> rx_same
+    | recv uid idx =>
+      simp only [step, recv]
+      split
+      · rx_same
+      · split
+        · rx_same
+        · split
+          · rx_same
+          · split
+            · rx_same
+            · rw [hrx]
+              simp only
+              split
+              · exact Or.inr (Or.inl rfl)
+              · rx_same
+    | send uid idx rel =>
+      left
+      simp only [step, send]
+      split
+      · rx_same
+      · split
+        · rx_same
+        · split <;> rx_same
+    | dropEx uid idx =>
+      left
+      simp only [step, dropEx]
+      split
+      · rx_same
+      · split <;> rx_same
+    | initiate uid => rx_same
+    | establish port mode ctr =>
+      left
+      simp only [step, establish]
+      split
+      · rx_same
+      · split
+        · split <;> rx_same
+        · rx_same
+    | removeSess uid => rx_same
+    | tick d => rx_same
+    | sweepAccept =>
+      simp only [step, sweepAccept, hrx]
+      split
+      · exact Or.inr (Or.inl rfl)
+      · rx_same
+    | sweepOrphan =>
+      simp only [step, sweepOrphan, hrx]
+      split
+      · exact Or.inr (Or.inl rfl)
+      · rx_same
+    | closer => rx_same
+
+/-- the clock never runs backwards and only `tick` moves it -/
+theorem now_step (n : Node) (op : Op) :
+    n.now ≤ (step n op).1.now ∧ ((∀ d, op ≠ .tick d) → (step n op).1.now = n.now) := by
+  cases op with
+  | tick d => exact ⟨Nat.le_add_right _ _, fun h => absurd rfl (h d)⟩
+  | arrive m rnd =>
+    have : (arrive n m rnd).1.now = n.now := by
+      unfold arrive
+      split
+      · rfl
+      · simp only
+        split
+        · unfold finishArrive
+          simp only
+          split
+          · split
+            · rfl
+            · split
+              · rfl
+              · split <;> rfl
+          · rfl
+          · rfl
+        · split
+          · split
+            · split
+              · unfold finishArrive
+                simp only
+                split
+                · split
+                  · rfl
+                  · split
+                    · rfl
+                    · split <;> rfl
+                · rfl
+                · rfl
+              · rfl
+            · rfl
+          · rfl
+    exact ⟨Nat.le_of_eq this.symm, fun _ => this⟩
+  | accept =>
+    have : (accept n).1.now = n.now := by
+      unfold accept
+      split
+      · rfl
+      · simp only
+        split
+        · rfl
+        · split <;> rfl
+    exact ⟨Nat.le_of_eq this.symm, fun _ => this⟩
+  | recv uid idx =>
+    have : (recv n uid idx).1.now = n.now := by
+      unfold recv
+      simp only
+      split
+      · rfl
+      · split
+        · rfl
+        · split
+          · rfl
+          · split
+            · rfl
+            · split
+              · rfl
+              · split <;> rfl
+    exact ⟨Nat.le_of_eq this.symm, fun _ => this⟩
+  | send uid idx rel =>
+    have : (send n uid idx rel).1.now = n.now := by
+      unfold send
+      simp only
+      split
+      · rfl
+      · split
+        · rfl
+        · split <;> rfl
+    exact ⟨Nat.le_of_eq this.symm, fun _ => this⟩
+  | dropEx uid idx =>
+    have : (dropEx n uid idx).1.now = n.now := by
+      unfold dropEx
+      split
+      · rfl
+      · split <;> rfl
+    exact ⟨Nat.le_of_eq this.symm, fun _ => this⟩
+  | initiate uid => exact ⟨Nat.le_refl _, fun _ => rfl⟩
+  | establish port mode ctr =>
+    have : (establish n port mode ctr).1.now = n.now := by
+      unfold establish
+      split
+      · rfl
+      · simp only
+        split
+        · split <;> rfl
+        · rfl
+    exact ⟨Nat.le_of_eq this.symm, fun _ => this⟩
+  | removeSess uid => exact ⟨Nat.le_refl _, fun _ => rfl⟩
+  | sweepAccept =>
+    have : (sweepAccept n).1.now = n.now := by unfold sweepAccept; split <;> rfl
+    exact ⟨Nat.le_of_eq this.symm, fun _ => this⟩
+  | sweepOrphan =>
+    have : (sweepOrphan n).1.now = n.now := by unfold sweepOrphan; split <;> rfl
+    exact ⟨Nat.le_of_eq this.symm, fun _ => this⟩
+  | closer => exact ⟨Nat.le_refl _, fun _ => rfl⟩
+
+theorem quiet_sweepAccept (t : Table) (port sid : Nat) (h : RxHdr) (now : Nat) :
+    Quiet t (t.sweepAccept port sid h now).1 := by
+  intro rx ht hp
+  unfold Table.sweepAccept
+  rcases getForRx_cases t ht port sid now with ⟨s, hs, hf, hg⟩ | ⟨_, hg⟩
+  · rw [hg]
+    obtain ⟨ht1, hp1, hm1⟩ := get_inv ht hp hs now
+    simp only
+    split
+    · exact ⟨ht1, hp1⟩
+    · rename_i i hx
+      cases he : (touch s now).slot i with
+      | none => exact ⟨ht1, hp1⟩
+      | some e =>
+        simp only
+        split
+        · rename_i hc
+          have hrp : e.role = .rp := by
+            simp only [Bool.and_eq_true, decide_eq_true_eq] at hc; exact hc.1
+          have hlt := slot_lt _ i e he
+          exact quiet_dropUpdate
+            (y := { touch s now with exchs := (touch s now).exchs.set i (some { e with role := .rd }) })
+            hm1 ⟨rfl, rfl, rfl, rfl, rfl⟩ (by simp) he
+            (fun j hj => by rw [slot_set]; simp [Ne.symm hj])
+            (Or.inr ⟨{ e with role := .rd }, by rw [slot_set]; simp [hlt], rfl, by (rw [hrp]; rfl), by simp⟩)
+            rx ht1 hp1
+        · exact ⟨ht1, hp1⟩
+  · rw [hg]; exact ⟨ht, hp⟩
+
+theorem sweepOrphan_fst (t : Table) (port sid : Nat) (h : RxHdr) (now : Nat) :
+    (t.sweepOrphan port sid h now).1 = (t.getForRx port sid now).1 := by
+  unfold Table.sweepOrphan
+  have e1 : t.getForRx port sid now = ((t.getForRx port sid now).1, (t.getForRx port sid now).2) := rfl
+  rw [e1]
+  simp only
+  split
+  · rfl
+  · split
+    · rfl
+    · split <;> rfl
+
+theorem quiet_sweepOrphan (t : Table) (port sid : Nat) (h : RxHdr) (now : Nat) :
+    Quiet t (t.sweepOrphan port sid h now).1 := by
+  rw [sweepOrphan_fst]; exact quiet_getForRx t port sid now
+
+theorem quiet_recv (n : Node) (uid idx : Nat) : Quiet n.t (recv n uid idx).1.t := by
+  have hg := quiet_get n.t uid n.now
+  unfold recv
+  simp only
+  split
+  · exact Quiet.refl _
+  · split
+    · exact Quiet.refl _
+    · split
+      · exact Quiet.refl _
+      · split
+        · exact hg
+        · split
+          · exact hg
+          · split <;> exact hg
+
+theorem quiet_acceptNode (n : Node) : Quiet n.t (accept n).1.t := by
+  unfold accept
+  split
+  · exact Quiet.refl _
+  · rename_i r _
+    have hq := quiet_getForRx n.t r.m.port r.m.sid n.now
+    dsimp only
+    split
+    · exact hq
+    · split
+      · exact hq
+      · exact hq.trans (quiet_accept _ _ _ _)
+
+theorem quiet_dropExNode (n : Node) (uid idx : Nat) : Quiet n.t (dropEx n uid idx).1.t := by
+  unfold dropEx
+  split
+  · exact Quiet.refl _
+  · split
+    · exact Quiet.refl _
+    · exact quiet_dropExchange n.t uid idx n.now
+
+theorem quiet_sweepAcceptNode (n : Node) : Quiet n.t (sweepAccept n).1.t := by
+  unfold sweepAccept
+  split
+  · exact Quiet.refl _
+  · exact quiet_sweepAccept _ _ _ _ _
+
+theorem quiet_sweepOrphanNode (n : Node) : Quiet n.t (sweepOrphan n).1.t := by
+  unfold sweepOrphan
+  split
+  · exact Quiet.refl _
+  · exact quiet_sweepOrphan _ _ _ _ _
+
+/-- while a message waits, no step creates an accept-pending exchange -/
+theorem quiet_step (n : Node) (hrx : n.rx ≠ none) (hw : n.t.nextUid < 0x0fffffff) (op : Op) :
+    Quiet n.t (step n op).1.t := by
+  cases op with
+  | arrive m rnd =>
+    have : (arrive n m rnd).1 = n := by
+      unfold arrive
+      cases h : n.rx with
+      | none => exact absurd h hrx
+      | some r => rfl
+    show Quiet n.t (arrive n m rnd).1.t
+    rw [this]; exact Quiet.refl _
+  | accept => exact quiet_acceptNode n
+  | recv uid idx => exact quiet_recv n uid idx
+  | send uid idx rel => exact quiet_send n uid idx rel
+  | dropEx uid idx => exact quiet_dropExNode n uid idx
+  | initiate uid => exact quiet_initiate n.t uid n.now
+  | establish port mode ctr => exact quiet_establish n hw port mode ctr
+  | removeSess uid => exact quiet_remove n.t uid
+  | tick d => exact Quiet.refl _
+  | sweepAccept => exact quiet_sweepAcceptNode n
+  | sweepOrphan => exact quiet_sweepOrphanNode n
+  | closer => exact quiet_sweepDropped n.t n.now
+
+theorem noPending_step {n : Node} (h : Inv n) (hrx : n.rx ≠ none) (hw : n.t.nextUid < 0x0fffffff)
+    (hnp : NoPending n.t) (op : Op) : NoPending (step n op).1.t :=
+  (pend_none_iff _).1 (quiet_step n hrx hw op none h.tinv ((pend_none_iff _).2 hnp)).2
 
 end RxPath
